@@ -223,3 +223,119 @@ example : validate .enumIs f7Item = .reject ∧ validate .enumTryAs f7Item = .re
 example : validate .enumString { f7Item with varAttrs := [[.disabled], []] } = .accept := by decide
 
 end Strum
+
+namespace Strum
+
+/-! ### the rule × derive matrix as one statement -/
+
+/-- the rejection rules of the property -/
+inductive Rule
+  | nonEnum            -- R1 struct / union
+  | dataVariant        -- R2 data-carrying variant
+  | lifetime           -- R3 lifetime parameter
+  | repeatedEnumAttr   -- R4 repeated single-use attribute, enum level (incl. strum_discriminants name / vis)
+  | repeatedVarAttr    -- R4 repeated single-use attribute, variant level
+  | repeatedFieldAttr  -- R4 repeated default_with on a named field
+  | twoDefaults        -- R5
+  | defaultShape       -- R6 default on a variant without exactly one field
+  | transparentShape   -- R6 transparent on a variant without exactly one field
+  | unitPlaceholder    -- R7
+  | unknownStyle       -- R8
+  | halfParseErr       -- R9
+  | propLiteral        -- R10
+  deriving DecidableEq, Repr
+
+/-- which derives a rule applies to: those that consume the attribute or shape concerned -/
+def applies : Rule → Derive → Bool
+  | .nonEnum, _ => true
+  | .dataVariant, dv => dv == .variantArray || dv == .enumTable
+  | .lifetime, dv => dv == .enumIter || dv == .fromRepr || dv == .enumTable
+  | .repeatedEnumAttr, dv => dv.readsTypeProps
+  | .unknownStyle, dv => dv.readsTypeProps
+  | .repeatedVarAttr, dv => dv.readsVariantProps
+  | .repeatedFieldAttr, dv => dv == .enumString
+  | .twoDefaults, dv => dv == .enumString
+  | .halfParseErr, dv => dv == .enumString
+  | .defaultShape, dv => dv == .enumString || dv == .display
+  | .transparentShape, dv => dv == .display || dv == .asRefStr || dv == .intoStaticStr || dv == .asStaticStr
+  | .unitPlaceholder, dv => dv == .display
+  | .propLiteral, dv => dv == .enumProperty
+
+/-- what it means for an item to fall under a rule (for the derive in question) -/
+def RuleHolds : Rule → Derive → RawItem → Prop
+  | .nonEnum, _, it => it.kind ≠ .enum
+  | .dataVariant, dv, it =>
+    if dv = .variantArray then ∃ v ∈ it.d.variants, v.fields ≠ .unit
+    else ∃ v ∈ it.d.variants, v.disabled = false ∧ v.fields ≠ .unit
+  | .lifetime, _, it => 0 < it.lifetimes
+  | .repeatedEnumAttr, _, it =>
+    (∃ a ∈ it.enumAttrs, 2 ≤ countP (EnumAttr.sameKind a) it.enumAttrs) ∨
+    2 ≤ countP (· == DiscAttr.name) it.discAttrs ∨ 2 ≤ countP (· == DiscAttr.vis) it.discAttrs
+  | .unknownStyle, _, it => EnumAttr.serializeAll false ∈ it.enumAttrs
+  | .repeatedVarAttr, _, it => ∃ attrs ∈ it.varAttrs, ∃ a ∈ attrs, a.singleUse = true ∧ 2 ≤ countP (VarAttr.sameKind a) attrs
+  | .repeatedFieldAttr, _, it => fieldDwErr it = true
+  | .twoDefaults, _, it => 2 ≤ it.d.defaults.length
+  | .halfParseErr, _, it => parseErrHalf it = true
+  | .defaultShape, dv, it =>
+    if dv = .enumString then ∃ v ∈ it.d.defaults, v.fields.arity ≠ 1
+    else ∃ v ∈ it.d.variants, v.disabled = false ∧ v.transparent = false ∧ v.isDefault = true ∧ v.toStr = none ∧ v.fields.arity ≠ 1
+  | .transparentShape, _, it => ∃ v ∈ it.d.variants, v.disabled = false ∧ v.transparent = true ∧ v.fields.arity ≠ 1
+  | .unitPlaceholder, _, it =>
+    ∃ v ∈ it.d.variants, v.disabled = false ∧ v.fields = .unit ∧ v.transparent = false ∧ v.isDefault = false ∧
+      ∃ used, captureFormatStrings (canonical it.d v) = .ok used ∧ used ≠ []
+  | .propLiteral, _, it => badPropLit it = true
+
+/-- **Every rejection rule, instantiated on every derive it applies to, yields a compile error.** -/
+theorem rejects (r : Rule) (dv : Derive) (ha : applies r dv = true) (it : RawItem) (hr : RuleHolds r dv it) :
+    validate dv it = .reject := by
+  cases r with
+  | nonEnum => exact rejects_non_enum dv it hr
+  | dataVariant =>
+    simp only [applies, Bool.or_eq_true, beq_iff_eq] at ha
+    rcases ha with rfl | rfl
+    · simp only [RuleHolds, ↓reduceIte] at hr
+      obtain ⟨v, hv, hf⟩ := hr
+      exact rejects_data_variant_array it v hv hf
+    · simp only [RuleHolds, reduceCtorEq, ↓reduceIte] at hr
+      obtain ⟨v, hv, hen, hf⟩ := hr
+      exact rejects_data_variant_table it v hv hen hf
+  | lifetime =>
+    simp only [applies, Bool.or_eq_true, beq_iff_eq] at ha
+    exact rejects_lifetime dv (by rcases ha with (h | h) | h <;> simp [h]) it hr
+  | repeatedEnumAttr =>
+    rcases hr with h | h | h
+    · exact rejects_enum_attr dv ha it (Or.inl h)
+    · exact rejects_enum_attr dv ha it (Or.inr (Or.inr (Or.inl h)))
+    · exact rejects_enum_attr dv ha it (Or.inr (Or.inr (Or.inr h)))
+  | unknownStyle => exact rejects_enum_attr dv ha it (Or.inr (Or.inl hr))
+  | repeatedVarAttr => exact rejects_variant_attr dv ha it hr
+  | repeatedFieldAttr =>
+    simp only [applies, beq_iff_eq] at ha; subst ha
+    exact rejects_field_default_with it hr
+  | twoDefaults =>
+    simp only [applies, beq_iff_eq] at ha; subst ha
+    exact rejects_defaults it (Or.inl hr)
+  | halfParseErr =>
+    simp only [applies, beq_iff_eq] at ha; subst ha
+    exact rejects_half_parse_err it hr
+  | defaultShape =>
+    simp only [applies, Bool.or_eq_true, beq_iff_eq] at ha
+    rcases ha with rfl | rfl
+    · simp only [RuleHolds, ↓reduceIte] at hr
+      exact rejects_defaults it (Or.inr hr)
+    · simp only [RuleHolds, reduceCtorEq, ↓reduceIte] at hr
+      obtain ⟨v, hv, hen, ht, hd, hts, har⟩ := hr
+      exact rejects_default_shape_display it v hv hen ht hd hts har
+  | transparentShape =>
+    simp only [applies, Bool.or_eq_true, beq_iff_eq] at ha
+    obtain ⟨v, hv, hen, ht, har⟩ := hr
+    exact rejects_transparent_shape dv (by rcases ha with ((h | h) | h) | h <;> simp [h]) it v hv hen ht har
+  | unitPlaceholder =>
+    simp only [applies, beq_iff_eq] at ha; subst ha
+    obtain ⟨v, hv, hen, hf, ht, hd, used, hc, hne⟩ := hr
+    exact rejects_unit_placeholder it v hv hen hf ht hd used hc hne
+  | propLiteral =>
+    simp only [applies, beq_iff_eq] at ha; subst ha
+    exact rejects_prop_literal it hr
+
+end Strum
